@@ -74,8 +74,8 @@ def task_dispatch():
         tok = r.state['tok']
         ok = True
         for e in kcalls(r):
-            a = e['args']
-            ok = ok and len(a) == 14 and not e['kwargs']
+            a = list(e['args']) + [e['kwargs'][k] for k in ROLES[len(e['args']):] if k in e['kwargs']]
+            ok = ok and len(a) == 14 and len(e['args']) + len(e['kwargs']) == 14
             for role, v in zip(ROLES[:13], a[:13]):
                 ok = ok and isinstance(v, cx.NDArr) and v.store is tok[role].store and v.view == 'whole'
             ok = ok and cx.is_sym(a[13]) and a[13].eq(nu)
@@ -99,7 +99,11 @@ def task_dispatch():
 
     def lr_query(r):
         q = [e for e in r.events if e['kind'] == 'call' and e['name'] == 'solver._current_lr_dir']
-        return len(q) == 1 and cx.is_sym(q[0]['args'][0]) and q[0]['args'][0].eq(lr) and q[0]['args'][1] is r.state['grid']
+        if len(q) != 1:
+            return False
+        b = dict(zip(('lr_dir', 'grid'), q[0]['args']))
+        b.update(q[0]['kwargs'])
+        return set(b) == {'lr_dir', 'grid'} and cx.is_sym(b['lr_dir']) and b['lr_dir'].eq(lr) and b['grid'] is r.state['grid']
     clause(col, 'current_direction_is_asked_for_the_requested_code_on_this_grid', res, lr_query, pre)
     clause(col, 'smoothing_itself_writes_nothing', res, lambda r: not r.mutations(), pre)
     # composition with the C05 contract of _current_lr_dir: d in code(c) => d requested and more than two cells along d
